@@ -650,6 +650,10 @@ def _param_registry():
         ureg = env.fresh("Fraction")
         ureg.add_context(pint.Context.from_lines(["@context(p=5) pouter", "    [mass] -> [time]: value * p * second / kilogram"], non_int_type=Fraction))
         ureg.add_context(pint.Context.from_lines(["@context(p=2, q=3) pinner = pinn", "    [length] -> [time]: value * p * q * second / meter"], non_int_type=Fraction))
+        # contexts that declare no parameter at all (a redefinition only; nothing): at the bottom of the stack they must not hide what the
+        # contexts above them provide
+        ureg.add_context(pint.Context.from_lines(["@context predef", "    furlong = 200 * meter"], non_int_type=Fraction))
+        ureg.add_context(pint.Context("pempty"))
         _PARAM_REG.append(ureg)
     return _PARAM_REG[0]
 
@@ -666,6 +670,8 @@ def case_params(case, col=None):
     want = p_eff * q_eff
     q = ureg.Quantity(Fraction(1), "meter")
     try:
+        if case.get("bottom"):
+            ureg.enable_contexts(case["bottom"])
         if outer != "off":
             ureg.enable_contexts("pouter", **({} if outer == "default" else {"p": Fraction(outer)}))
         if how == "to":
@@ -755,7 +761,8 @@ def run_params(task, tier, seed, col):
     for outer in ("off", "default", 7):
         for how in ("to", "to_alias", "ito", "with", "enable"):
             for kw in ({}, {"p": 11}, {"q": 10}, {"p": 11, "q": 10}):
-                col.run_case(lambda c: case_params(c, col), {"outer": outer, "how": how, "kw": kw})
+                for bottom in (None, "predef", "pempty"):
+                    col.run_case(lambda c: case_params(c, col), {"outer": outer, "how": how, "kw": kw, "bottom": bottom})
     col.exhaustive = True
 
 
